@@ -154,7 +154,8 @@ def run(c):
     c.extra['spans_closed'] = sum(m['closes'] for m in meta)
     # capture tracepoints (deferred snapshots): completed once, on their thread, with the opening invocation's result
     traces, meta = c03.run_scenarios(c, rng, wd, 60 if quick else 1500, 0.8, 'captures', 'k', capture=True,
-                                     curated=[([M(1, 'a', 'f', 'capture')], [[('a.f', [('call', 'a.f', [('line',)])])]]),
+                                     curated=[([M(1, 'a', 'f', 'capture')], [[('a.f', [('try', 'a.g', [('raise',)]), ('line',)])]]),
+                                              ([M(1, 'a', 'f', 'capture')], [[('a.f', [('call', 'a.f', [('line',)])])]]),
                                               ([M(1, 'a', 'f', 'capture')], [[('a.f', [('line',), ('cfg', 0), ('line',)])]]),
                                               ([M(1, 'a', 'g', 'capture'), L(2, 'a', 'f_call', 'capture')],
                                                [[('a.f', [('call', 'a.g', [('line',)]), ('try', 'a.g', [('raise',)])])]])])
